@@ -16,6 +16,9 @@ use linfa_elasticnet::{ElasticNet, MultiTaskElasticNet};
 use linfa_linear::LinearRegression;
 use ndarray::{Array1, Array2};
 
+#[path = "c11x.rs"]
+mod x;
+
 fn canon(x: f64) -> f64 {
     x + 0.0
 }
@@ -98,14 +101,16 @@ fn ref_enet(x: &Array2<f64>, y: &[f64], l1: f64, l2: f64, icpt: bool) -> (Vec<f6
     (w, b)
 }
 
-struct EnetCase {
-    x: Array2<f64>,
-    y: Array1<f64>,
-    l1r: f64,
-    pen: f64,
-    tol: f64,
-    max: u32,
-    icpt: bool,
+pub(crate) struct EnetCase {
+    pub x: Array2<f64>,
+    pub y: Array1<f64>,
+    pub l1r: f64,
+    pub pen: f64,
+    pub tol: f64,
+    pub max: u32,
+    pub icpt: bool,
+    /// relative slack of the recomputations: 1e-9 for f64, 2e-3 for f32 fits (values widened to f64)
+    pub rel: f64,
 }
 
 fn uncentred(x: &Array2<f64>) -> bool {
@@ -119,7 +124,18 @@ fn uncentred(x: &Array2<f64>) -> bool {
 }
 
 /// The property's predicate on one fitted elastic net (w, b, gap, steps).
-fn oracle_enet(ctx: &mut Ctx, em_counts: &mut Vec<String>, c: &EnetCase, w: &[f64], b: f64, gap: f64, steps: u32, kind: &str) {
+///
+/// What is judged when (all of it follows from the statement and from `gap_bounds_suboptimality`):
+/// * `break_only_below_tolerance` — the loop was left before the budget ran out (`steps < max`), so the
+///   reported gap must be `< tol·‖y‖²` ("KKT up to the stated tolerance");
+/// * `gap_nonneg`, `coef_suboptimality_le_gap`, `intercept_jointly_optimal` — whenever the gap was
+///   evaluated at all (`max ≥ 2`: it is evaluated at sweep `max − 1` at the latest).  A gap evaluated at an
+///   earlier iterate still bounds the suboptimality of the returned one, because a coordinate sweep never
+///   raises the objective — so ridge / unpenalised fits, which practically never reach `gap < tol‖y‖²`,
+///   are judged too;
+/// * `gap_is_gap_of_result` — when the loop broke (the gap is then the gap of the returned point);
+/// * `zero_below_l1_threshold` — when it broke on the coefficient-change test (`steps < max − 1`).
+pub(crate) fn oracle_enet(ctx: &mut Ctx, em_counts: &mut Vec<String>, c: &EnetCase, w: &[f64], b: f64, gap: f64, steps: u32, kind: &str) {
     let (n, p) = c.x.dim();
     let nf = n as f64;
     let l1 = c.l1r * c.pen * nf;
@@ -133,28 +149,41 @@ fn oracle_enet(ctx: &mut Ctx, em_counts: &mut Vec<String>, c: &EnetCase, w: &[f6
     if !(w.iter().all(|v| v.is_finite()) && gap.is_finite()) {
         return;
     }
-    if !(steps < c.max && gap < c.tol * s) {
-        // the loop did not `break` on `gap < tol·‖y‖²` (budget not large enough, or all-zero
-        // target): outside the quantifier.  `steps == max` is counted as not converged because the
-        // public API cannot tell a break in the last sweep from an exhausted budget (the reported
-        // gap may then be stale or the initial `1 + tol`).
-        em_counts.push(format!("{}:nonconverged", kind));
+    let broke = steps < c.max;
+    if broke {
+        // the only `break` of the loop is guarded by `gap < tol·‖y‖²`
+        ctx.require(gap < c.tol * s * (1.0 + 1e3 * c.rel) + 1e-300 || s == 0.0, "break_only_below_tolerance", &class, || format!("stopped after {} < {} sweeps with gap {} >= tol*|y|^2 = {}", steps, c.max, gap, c.tol * s));
+    }
+    let converged = broke && gap < c.tol * s;
+    em_counts.push(if converged { format!("{}:converged:{}", kind, cen) } else { format!("{}:nonconverged", kind) });
+    if c.max < 2 {
+        // a budget of one sweep never evaluates the gap (the reported value is the initial `1 + tol`)
+        em_counts.push(format!("{}:gap_never_evaluated", kind));
         return;
     }
-    em_counts.push(format!("{}:converged:{}", kind, cen));
+    em_counts.push(format!("{}:judged:{}", kind, if c.l1r * c.pen == 0.0 { "l1=0" } else { "l1>0" }));
     let xw = matvec(&c.x, w);
     let r: Vec<f64> = yc.iter().zip(&xw).map(|(a, b)| a - b).collect();
-    let slack = 1e-9 * s + 1e-12;
+    let slack = c.rel * s + 1e-12;
     // (1) the reported gap is the gap of the returned point
     // With l1 = 0 the formula is discontinuous at Xᵀr − l2·w = 0 (scaling constant 0 vs 1): when the
     // implementation's running residual is exactly stationary and the recomputed one is so only up
     // to rounding, either branch is the gap of the result.
-    let g2 = gap_naive(&c.x, &yc, w, &r, l1, l2);
-    let xscale: f64 = (0..p).map(|j| dot(&col(&c.x, j), &col(&c.x, j)).sqrt()).fold(0.0, f64::max);
-    let near_stationary = l1 == 0.0 && dual_norm(&c.x, w, &r, l2) <= 1e-9 * xscale * (s.sqrt() + 1e-300);
-    let g1 = gap_with_const(&yc, w, &r, l1, l2, 1.0);
-    let close = |a: f64, b: f64| (a - b).abs() <= 1e-6 * s + 1e-9 * b.abs() + 1e-12;
-    ctx.require(close(gap, g2) || (near_stationary && close(gap, g1)), "gap_is_gap_of_result", &class, || format!("reported gap {} but recomputed {}", gap, g2));
+    if broke {
+        let g2 = gap_naive(&c.x, &yc, w, &r, l1, l2);
+        let xscale: f64 = (0..p).map(|j| dot(&col(&c.x, j), &col(&c.x, j)).sqrt()).fold(0.0, f64::max);
+        let near_stationary = l1 == 0.0 && dual_norm(&c.x, w, &r, l2) <= 1e3 * c.rel * xscale * (s.sqrt() + 1e-300);
+        let g1 = gap_with_const(&yc, w, &r, l1, l2, 1.0);
+        // the running residual drifts from y − Xw by rounding of the updates `r ± w_j·x_j`: the recomputed gap
+        // is allowed `rel·(‖y‖² + ‖y‖·Σ|w_j|‖x_j‖)` (the second term only matters on badly conditioned designs)
+        let wx: f64 = (0..p).map(|j| w[j].abs() * dot(&col(&c.x, j), &col(&c.x, j)).sqrt()).sum();
+        // ... and the rescaling constant l1/‖Xᵀr − l2·w‖∞ moves with the residual by a relative
+        // `max‖x_j‖·δr / max(‖Xᵀr − l2 w‖∞, l1)`, which multiplies terms of size ‖y‖² (capped at 1: on designs
+        // where this sensitivity is of order one the recomputation decides nothing)
+        let sens = (xscale * c.rel * wx / dual_norm(&c.x, w, &r, l2).max(l1).max(1e-300)).min(1.0);
+        let close = |a: f64, b: f64| (a - b).abs() <= c.rel * (s + s.sqrt() * wx) + sens * s + 1e-9 * b.abs() + 1e-12;
+        ctx.require(close(gap, g2) || (near_stationary && close(gap, g1)), "gap_is_gap_of_result", &class, || format!("reported gap {} but recomputed {}", gap, g2));
+    }
     // (2) non-negative
     ctx.require(gap >= -slack, "gap_nonneg", &class, || format!("gap {}", gap));
     // (3) no perturbation of the coefficients lowers the objective by more than the gap
@@ -187,7 +216,12 @@ fn oracle_enet(ctx: &mut Ctx, em_counts: &mut Vec<String>, c: &EnetCase, w: &[f6
         let (wj, bj) = ref_enet(&c.x, &y, l1, l2, true);
         let pj = objective(&c.x, &y, &wj, bj, l1, l2);
         let worst = loss_b.max(p0 - pj);
-        ctx.require(worst <= gap.max(0.0) + slack + 1e-12 * p0.abs(), "intercept_jointly_optimal", &class, || {
+        // the open finding is exactly "the intercept is the target mean": any other intercept on
+        // un-centred features is a different defect and gets its own class
+        let ymean = y.iter().sum::<f64>() / nf;
+        let ysc = y.iter().map(|v| v.abs()).fold(0.0, f64::max);
+        let class4 = if cen == "uncentred" { format!("{}:b={}", class, if (b - ymean).abs() <= 1e3 * c.rel * 1e-3 * (ysc + 1e-300) { "ymean" } else { "other" }) } else { class.clone() };
+        ctx.require(worst <= gap.max(0.0) + slack + 1e-12 * p0.abs(), "intercept_jointly_optimal", &class4, || {
             format!("objective can be lowered by {} (intercept alone: {}) but gap={}; b={} best b for w={} joint optimum b={} w={:?} vs w={:?}", worst, loss_b, gap, b, bstar, bj, wj, w)
         });
     }
@@ -202,7 +236,7 @@ fn oracle_enet(ctx: &mut Ctx, em_counts: &mut Vec<String>, c: &EnetCase, w: &[f6
             let cj = col(&c.x, j);
             let tmp = dot(&cj, &r) + dot(&cj, &cj) * w[j];
             let cross: f64 = (0..p).filter(|k| *k != j).map(|k| dot(&cj, &col(&c.x, k)).abs()).sum();
-            let sl = c.tol * wmax * cross + 1e-9 * (tmp.abs() + thr) + 1e-300;
+            let sl = c.tol * wmax * cross + c.rel * (tmp.abs() + thr) + 1e-300;
             ctx.require(tmp.abs() >= thr - sl, "zero_below_l1_threshold", &class, || format!("w[{}]={} although |x_j.r_j|={} < n*l1_ratio*penalty={}", j, w[j], tmp.abs(), thr));
         }
     }
@@ -350,7 +384,7 @@ fn gen_enet_case(rng: &mut Rng, big: bool, lattice_y: bool) -> (EnetCase, usize)
     }
     let tol = pick_f(rng, &TOLS);
     let max = *rng.pick(&[1u32, 2, 3, 5, 50, 1000, 1000, 20000, 20000]);
-    (EnetCase { x, y, l1r, pen, tol, max, icpt: rng.chance(2, 3) }, kind)
+    (EnetCase { x, y, l1r, pen, tol, max, icpt: rng.chance(2, 3), rel: 1e-9 }, kind)
 }
 
 fn kind_name(k: usize) -> &'static str {
@@ -598,11 +632,13 @@ fn op_ols_oracle(em: &mut Em, rng: &mut Rng) {
     em.count(&format!("ols:design={}{}", kind_name(kind), if scaled { "+scaled" } else { "" }));
     let class = format!("ols:icpt={}", icpt as u8);
     let op = format!("#ols X={} y={} icpt={}", rows_hex(&x), vec_hex(&y), icpt as u8);
+    let mut fitted = false;
     em.case_valid(op, &class, |ctx| {
         let ds = Dataset::new(x.clone(), y.clone());
         match LinearRegression::new().with_intercept(icpt).fit(&ds) {
             Err(e) => ctx.fail("fit_ok", &class, format!("{:?}", e)),
             Ok(m) => {
+                fitted = true;
                 let w = m.params().to_vec();
                 let b = m.intercept();
                 let yv = y.to_vec();
@@ -639,6 +675,9 @@ fn op_ols_oracle(em: &mut Em, rng: &mut Rng) {
         }
         "-".to_string()
     });
+    if fitted {
+        em.count("ols:fitted");
+    }
 }
 
 /// exact rank test over the rationals on the unscaled integer pattern is not available after scaling;
@@ -678,6 +717,171 @@ fn full_rank(mut cols: Vec<Vec<f64>>) -> bool {
     true
 }
 
+/// reference solver for the multi-task problem: cyclic block coordinate descent written from the
+/// definition of the group prox, on centred columns / targets when `icpt`.  Only a candidate `(W', b')`.
+pub(crate) fn ref_mtl(x: &Array2<f64>, y: &Array2<f64>, l1: f64, l2: f64, icpt: bool) -> (Array2<f64>, Vec<f64>) {
+    let (n, p) = x.dim();
+    let t = y.ncols();
+    let nf = n as f64;
+    let ym: Vec<f64> = (0..t).map(|k| if icpt { (0..n).map(|i| y[[i, k]]).sum::<f64>() / nf } else { 0.0 }).collect();
+    let xm: Vec<f64> = (0..p).map(|j| if icpt { col(x, j).iter().sum::<f64>() / nf } else { 0.0 }).collect();
+    let cols: Vec<Vec<f64>> = (0..p).map(|j| col(x, j).iter().map(|v| v - xm[j]).collect()).collect();
+    let nrm: Vec<f64> = cols.iter().map(|c| dot(c, c)).collect();
+    let mut r: Vec<Vec<f64>> = (0..t).map(|k| (0..n).map(|i| y[[i, k]] - ym[k]).collect()).collect();
+    let ynorm = r.iter().map(|c| dot(c, c)).sum::<f64>().sqrt().max(1e-300);
+    let mut w = Array2::<f64>::zeros((p, t));
+    for _ in 0..20000 {
+        let mut moved: f64 = 0.0;
+        for j in 0..p {
+            if nrm[j] == 0.0 {
+                continue;
+            }
+            let tmp: Vec<f64> = (0..t).map(|k| dot(&cols[j], &r[k]) + nrm[j] * w[[j, k]]).collect();
+            let nt = dot(&tmp, &tmp).sqrt();
+            for k in 0..t {
+                let new = if nt <= l1 { 0.0 } else { tmp[k] * (1.0 - l1 / nt) / (nrm[j] + l2) };
+                let old = w[[j, k]];
+                if new != old {
+                    for i in 0..n {
+                        r[k][i] -= (new - old) * cols[j][i];
+                    }
+                    w[[j, k]] = new;
+                }
+                moved = moved.max((new - old).abs() * nrm[j].sqrt());
+            }
+        }
+        if moved <= 1e-15 * ynorm {
+            break;
+        }
+    }
+    let b: Vec<f64> = (0..t).map(|k| if icpt { ym[k] - (0..p).map(|j| xm[j] * w[[j, k]]).sum::<f64>() } else { 0.0 }).collect();
+    (w, b)
+}
+
+pub(crate) struct MtlCase {
+    pub x: Array2<f64>,
+    pub y: Array2<f64>,
+    pub l1r: f64,
+    pub pen: f64,
+    pub tol: f64,
+    pub max: u32,
+    pub icpt: bool,
+    pub rel: f64,
+}
+
+/// The property's predicate on one fitted multi-task elastic net — same clauses, same conditions as
+/// `oracle_enet`, with the group penalty `‖W‖₂,₁`.
+pub(crate) fn oracle_mtl(ctx: &mut Ctx, counts: &mut Vec<String>, c: &MtlCase, w: &Array2<f64>, b: &[f64], gap: f64, steps: u32) {
+    let (x, y) = (&c.x, &c.y);
+    let (n, p) = x.dim();
+    let t = y.ncols();
+    let cen = if c.icpt && uncentred(x) { "uncentred" } else { "centred" };
+    let class = format!("mtl:features={}", cen);
+    let class_fin = format!("mtl:l1={}", if c.l1r * c.pen == 0.0 { "0" } else { "pos" });
+    let fin = w.iter().all(|v| v.is_finite()) && gap.is_finite() && b.iter().all(|v| v.is_finite());
+    ctx.require(fin, "finite", &class_fin, || format!("W={:?} b={:?} gap={}", w, b, gap));
+    if !fin {
+        return;
+    }
+    ctx.require(w.dim() == (p, t) && b.len() == t, "shape", &class, || format!("W is {:?}, b has {} entries for p={} t={}", w.dim(), b.len(), p, t));
+    if w.dim() != (p, t) || b.len() != t {
+        return;
+    }
+    let nf = n as f64;
+    let (l1, l2) = (c.l1r * c.pen * nf, (1.0 - c.l1r) * c.pen * nf);
+    let yc = Array2::from_shape_fn((n, t), |(i, k)| y[[i, k]] - b[k]);
+    let s: f64 = yc.iter().map(|v| v * v).sum();
+    let broke = steps < c.max;
+    if broke {
+        ctx.require(gap < c.tol * s * (1.0 + 1e3 * c.rel) + 1e-300 || s == 0.0, "break_only_below_tolerance", &class, || format!("stopped after {} < {} sweeps with gap {} >= tol*|Y|^2 = {}", steps, c.max, gap, c.tol * s));
+    }
+    let converged = broke && gap < c.tol * s;
+    counts.push(if converged { format!("mtl:converged:{}", cen) } else { "mtl:nonconverged".to_string() });
+    if c.max < 2 {
+        counts.push("mtl:gap_never_evaluated".to_string());
+        return;
+    }
+    counts.push(format!("mtl:judged:{}", if l1 == 0.0 { "l1=0" } else { "l1>0" }));
+    let r = &yc - &x.dot(w);
+    let slack = c.rel * s + 1e-12;
+    if broke {
+        let g2 = gap_mtl_naive(x, &yc, w, &r, l1, l2);
+        // l1 = 0: same discontinuity of the formula as in the single-task oracle
+        let xscale: f64 = (0..p).map(|j| dot(&col(x, j), &col(x, j)).sqrt()).fold(0.0, f64::max);
+        let near_stationary = l1 == 0.0 && dual_norm_mtl(x, w, &r, l2) <= 1e3 * c.rel * xscale * (s.sqrt() + 1e-300);
+        let g1 = gap_mtl_const(&yc, w, &r, l1, l2, 1.0);
+        let wx: f64 = (0..p).map(|j| (0..t).map(|k| w[[j, k]] * w[[j, k]]).sum::<f64>().sqrt() * dot(&col(x, j), &col(x, j)).sqrt()).sum();
+        let sens = (xscale * c.rel * wx / dual_norm_mtl(x, w, &r, l2).max(l1).max(1e-300)).min(1.0);
+        let close = |a: f64, b: f64| (a - b).abs() <= c.rel * (s + s.sqrt() * wx) + sens * s + 1e-9 * b.abs() + 1e-12;
+        ctx.require(close(gap, g2) || (near_stationary && close(gap, g1)), "gap_is_gap_of_result", &class, || format!("reported {} recomputed {}", gap, g2));
+    }
+    ctx.require(gap >= -slack, "gap_nonneg", &class, || format!("gap {}", gap));
+    let p0 = objective_mtl(x, y, w, b, l1, l2);
+    let bound = gap.max(0.0) + slack + 1e-12 * p0.abs();
+    // candidates: the optimum of an independent solver for the same intercepts (this is what exposes a
+    // feature row wrongly held at zero: no single-entry move lowers the objective there), then
+    // single-entry moves and zeroed rows
+    let (wr, _) = ref_mtl(x, &yc, l1, l2, false);
+    let pr = objective_mtl(x, y, &wr, b, l1, l2);
+    ctx.require(p0 - pr <= bound, "coef_suboptimality_le_gap", &class, || format!("P(W)={} but the reference solver reaches {} (gap={}); W={:?} W'={:?}", p0, pr, gap, w, wr));
+    'outer: for j in 0..p {
+        for k in 0..t {
+            for d in [-1e-1, 1e-1, -1e-3, 1e-3, -1e-6, 1e-6] {
+                let mut v = w.clone();
+                v[[j, k]] += d * (w[[j, k]].abs() + 1.0);
+                let pv = objective_mtl(x, y, &v, b, l1, l2);
+                if !(p0 - pv <= bound) {
+                    ctx.fail("coef_suboptimality_le_gap", &class, format!("P(W)={} P(W')={} gap={}", p0, pv, gap));
+                    break 'outer;
+                }
+            }
+        }
+        let mut v = w.clone();
+        for k in 0..t {
+            v[[j, k]] = 0.0;
+        }
+        let pv = objective_mtl(x, y, &v, b, l1, l2);
+        if !(p0 - pv <= bound) {
+            ctx.fail("coef_suboptimality_le_gap", &class, format!("P(W)={} P(W with row {} zeroed)={} gap={}", p0, j, pv, gap));
+            break;
+        }
+    }
+    if c.icpt {
+        let xw = x.dot(w);
+        let mut loss = 0.0;
+        let mut is_mean = true;
+        for k in 0..t {
+            let bs = (0..n).map(|i| y[[i, k]] - xw[[i, k]]).sum::<f64>() / nf;
+            loss += 0.5 * nf * (b[k] - bs) * (b[k] - bs);
+            let ymean = (0..n).map(|i| y[[i, k]]).sum::<f64>() / nf;
+            let ysc = (0..n).map(|i| y[[i, k]].abs()).fold(0.0, f64::max);
+            is_mean &= (b[k] - ymean).abs() <= c.rel * (ysc + 1e-300);
+        }
+        let (wj, bj) = ref_mtl(x, y, l1, l2, true);
+        let pj = objective_mtl(x, y, &wj, &bj, l1, l2);
+        let worst = loss.max(p0 - pj);
+        let class4 = if cen == "uncentred" { format!("{}:b={}", class, if is_mean { "ymean" } else { "other" }) } else { class.clone() };
+        ctx.require(worst <= bound, "intercept_jointly_optimal", &class4, || format!("the objective can be lowered by {} (intercepts alone: {}) but gap={}; b={:?} joint optimum b={:?}", worst, loss, gap, b, bj));
+    }
+    // feature rows under the group threshold are exactly zero
+    let wmax = (0..p).map(|j| (0..t).map(|k| w[[j, k]] * w[[j, k]]).sum::<f64>().sqrt()).fold(0.0, f64::max);
+    if steps < c.max - 1 && wmax > 1e-12 {
+        let thr = nf * c.l1r * c.pen;
+        for j in 0..p {
+            if (0..t).all(|k| w[[j, k]] == 0.0) {
+                continue;
+            }
+            let cj = col(x, j);
+            let nj = dot(&cj, &cj);
+            let tmp: Vec<f64> = (0..t).map(|k| (0..n).map(|i| cj[i] * r[[i, k]]).sum::<f64>() + nj * w[[j, k]]).collect();
+            let nt = dot(&tmp, &tmp).sqrt();
+            let cross: f64 = (0..p).filter(|k| *k != j).map(|k| dot(&cj, &col(x, k)).abs()).sum();
+            let sl = c.tol * wmax * cross * (t as f64).sqrt() + c.rel * (nt + thr) + 1e-300;
+            ctx.require(nt >= thr - sl, "zero_below_l1_threshold", &class, || format!("row {} of W = {:?} although |x_j.R_j|_2={} < n*l1_ratio*penalty={}", j, w.row(j).to_vec(), nt, thr));
+        }
+    }
+}
+
 fn op_mtl_oracle(em: &mut Em, rng: &mut Rng) {
     let lat = rng.coin();
     let (mut x, y, kind) = gen_mtl(rng, lat);
@@ -685,7 +889,6 @@ fn op_mtl_oracle(em: &mut Em, rng: &mut Rng) {
     if scaled {
         scale_columns(rng, &mut x);
     }
-    let (n, p) = x.dim();
     let t = y.ncols();
     let mut l1r = pick_f(rng, &L1RS);
     let mut pen = pick_f(rng, &PENS);
@@ -699,75 +902,13 @@ fn op_mtl_oracle(em: &mut Em, rng: &mut Rng) {
     em.count(&format!("mtl:design={}{}", kind_name(kind), if scaled { "+scaled" } else { "" }));
     em.count(&format!("mtl:l1={}", if l1r * pen == 0.0 { "0" } else { "pos" }));
     let op = format!("#mtl t={} X={} Y={} tol={} max={} l1r={} pen={} icpt={}", t, rows_hex(&x), rows_hex(&y), hex64(tol), max, hex64(l1r), hex64(pen), icpt as u8);
-    let cen = if icpt && uncentred(&x) { "uncentred" } else { "centred" };
-    let class = format!("mtl:features={}", cen);
-    let class_fin = format!("mtl:l1={}", if l1r * pen == 0.0 { "0" } else { "pos" });
+    let c = MtlCase { x, y, l1r, pen, tol, max, icpt, rel: 1e-9 };
     let mut counts = vec![];
     em.case_valid(op, "mtl", |ctx| {
-        let ds = Dataset::new(x.clone(), y.clone());
+        let ds = Dataset::new(c.x.clone(), c.y.clone());
         match MultiTaskElasticNet::params().penalty(pen).l1_ratio(l1r).tolerance(tol).max_iterations(max).with_intercept(icpt).fit(&ds) {
             Err(e) => ctx.fail("fit_ok", "mtl", format!("{:?}", e)),
-            Ok(m) => {
-                let w = m.hyperplane().clone();
-                let b = m.intercept().to_vec();
-                let gap = m.duality_gap();
-                let fin = w.iter().all(|v| v.is_finite()) && gap.is_finite();
-                ctx.require(fin, "finite", &class_fin, || format!("W={:?} gap={}", w, gap));
-                if !fin {
-                    return "-".to_string();
-                }
-                let nf = n as f64;
-                let (l1, l2) = (l1r * pen * nf, (1.0 - l1r) * pen * nf);
-                let yc = Array2::from_shape_fn((n, t), |(i, k)| y[[i, k]] - b[k]);
-                let s: f64 = yc.iter().map(|v| v * v).sum();
-                if !(m.n_steps() < max && gap < tol * s) {
-                    counts.push("mtl:nonconverged".to_string());
-                    return "-".to_string();
-                }
-                counts.push(format!("mtl:converged:{}", cen));
-                let r = &yc - &x.dot(&w);
-                let slack = 1e-9 * s + 1e-12;
-                let g2 = gap_mtl_naive(&x, &yc, &w, &r, l1, l2);
-                // l1 = 0: same discontinuity of the formula as in the single-task oracle
-                let xscale: f64 = (0..p).map(|j| dot(&col(&x, j), &col(&x, j)).sqrt()).fold(0.0, f64::max);
-                let near_stationary = l1 == 0.0 && dual_norm_mtl(&x, &w, &r, l2) <= 1e-9 * xscale * (s.sqrt() + 1e-300);
-                let g1 = gap_mtl_const(&yc, &w, &r, l1, l2, 1.0);
-                let close = |a: f64, b: f64| (a - b).abs() <= 1e-6 * s + 1e-9 * b.abs() + 1e-12;
-                ctx.require(close(gap, g2) || (near_stationary && close(gap, g1)), "gap_is_gap_of_result", &class, || format!("reported {} recomputed {}", gap, g2));
-                ctx.require(gap >= -slack, "gap_nonneg", &class, || format!("gap {}", gap));
-                let p0 = objective_mtl(&x, &y, &w, &b, l1, l2);
-                'outer: for j in 0..p {
-                    for k in 0..t {
-                        for d in [-1e-1, 1e-1, -1e-3, 1e-3, -1e-6, 1e-6] {
-                            let mut v = w.clone();
-                            v[[j, k]] += d * (w[[j, k]].abs() + 1.0);
-                            let pv = objective_mtl(&x, &y, &v, &b, l1, l2);
-                            if !(p0 - pv <= gap.max(0.0) + slack + 1e-12 * p0.abs()) {
-                                ctx.fail("coef_suboptimality_le_gap", &class, format!("P(W)={} P(W')={} gap={}", p0, pv, gap));
-                                break 'outer;
-                            }
-                        }
-                    }
-                    let mut v = w.clone();
-                    for k in 0..t {
-                        v[[j, k]] = 0.0;
-                    }
-                    let pv = objective_mtl(&x, &y, &v, &b, l1, l2);
-                    if !(p0 - pv <= gap.max(0.0) + slack + 1e-12 * p0.abs()) {
-                        ctx.fail("coef_suboptimality_le_gap", &class, format!("P(W)={} P(W with row {} zeroed)={} gap={}", p0, j, pv, gap));
-                        break;
-                    }
-                }
-                if icpt {
-                    let xw = x.dot(&w);
-                    let mut loss = 0.0;
-                    for k in 0..t {
-                        let bs = (0..n).map(|i| y[[i, k]] - xw[[i, k]]).sum::<f64>() / nf;
-                        loss += 0.5 * nf * (b[k] - bs) * (b[k] - bs);
-                    }
-                    ctx.require(loss <= gap.max(0.0) + slack + 1e-12 * p0.abs(), "intercept_jointly_optimal", &class, || format!("re-fitting the intercepts alone lowers the objective by {} but gap={}", loss, gap));
-                }
-            }
+            Ok(m) => oracle_mtl(ctx, &mut counts, &c, m.hyperplane(), &m.intercept().to_vec(), m.duality_gap(), m.n_steps()),
         }
         "-".to_string()
     });
@@ -780,7 +921,7 @@ fn op_mtl_oracle(em: &mut Em, rng: &mut Rng) {
 fn op_witness(em: &mut Em) {
     let x = Array2::from_shape_fn((6, 2), |(i, j)| if j == 0 { 10.0 + i as f64 } else { [3.0, 1.0, 4.0, 1.0, 5.0, 9.0][i] });
     let y = Array1::from_shape_fn(6, |i| 2.0 * x[[i, 0]] - x[[i, 1]] + 3.0);
-    let c = EnetCase { x, y, l1r: 0.5, pen: 0.0, tol: 1e-4, max: 100000, icpt: true };
+    let c = EnetCase { x, y, l1r: 0.5, pen: 0.0, tol: 1e-4, max: 100000, icpt: true, rel: 1e-9 };
     let op = format!("#enet X={} y={} tol={} max={} l1r={} pen={} icpt=1", rows_hex(&c.x), vec_hex(&c.y), hex64(c.tol), c.max, hex64(c.l1r), hex64(c.pen));
     let mut counts = vec![];
     em.case_valid(op, "enet", |ctx| {
@@ -796,7 +937,7 @@ fn op_witness(em: &mut Em) {
 
 /// the input of theorem `fit_intercept_not_joint_witness` (Props/C11.lean), replayed on the real code
 fn op_witness_lean(em: &mut Em) {
-    let c = EnetCase { x: Array2::from_shape_fn((3, 1), |(i, _)| (i + 1) as f64), y: Array1::from_shape_fn(3, |i| (i + 1) as f64), l1r: 0.5, pen: 0.0, tol: 1e-4, max: 10, icpt: true };
+    let c = EnetCase { x: Array2::from_shape_fn((3, 1), |(i, _)| (i + 1) as f64), y: Array1::from_shape_fn(3, |i| (i + 1) as f64), l1r: 0.5, pen: 0.0, tol: 1e-4, max: 10, icpt: true, rel: 1e-9 };
     let op = format!("fit X={} y={} tol={} max={} l1r={} pen={} icpt=1", rows_hex(&c.x), vec_hex(&c.y), hex64(c.tol), c.max, hex64(c.l1r), hex64(c.pen));
     let mut counts = vec![];
     em.case_valid(op, "fit", |ctx| {
@@ -845,4 +986,5 @@ pub fn run(em: &mut Em, rng: &mut Rng) {
     for _ in 0..250 * f {
         op_mtl_oracle(em, rng);
     }
+    x::run(em, rng);
 }
